@@ -552,12 +552,11 @@ class AbsoluteDuration(Duration):
         length = abs(delta)
         self = timedelta.__new__(cls, length.days, length.seconds, length.microseconds)
 
-        # Intuitive normalization
+        # Intuitive normalization, in integer microseconds:
+        # going through float seconds is off by one microsecond for large values
         self._total = delta.total_seconds()
-        total = abs(self._total)
-
-        self._microseconds = round(total % 1 * 1e6)
-        days, self._seconds = divmod(int(total), SECONDS_PER_DAY)
+        total_s, self._microseconds = divmod(_to_microseconds(length), US_PER_SECOND)
+        days, self._seconds = divmod(total_s, SECONDS_PER_DAY)
         self._days = abs(days + years * 365 + months * 30)
         self._weeks, self._remaining_days = divmod(days, 7)
         self._months = abs(months)
